@@ -432,7 +432,9 @@ func main() {
 	}
 	r.Extra["scenarios"] = sc
 	r.Extra["list_size_limit"] = listLimit
-	if core.Thorough() {
+	if os.Getenv("C10_NO_BUDGET_CAP") != "" {
+		// measurement runs
+	} else if core.Thorough() {
 		if core.Opt.Budget > 18*time.Minute {
 			core.Opt.Budget = 18 * time.Minute
 		}
